@@ -180,6 +180,7 @@ func DumpIDL(ast *parser.Thrift) (string, error) {
 						sb.writeString(" = ")
 						printConstTypedValue(&sb, th.Default.TypedValue)
 					}
+					printAnnotation(&sb, th.Annotations)
 					if i != len(f.Throws)-1 {
 						sb.writeString(", ")
 					}
